@@ -116,6 +116,7 @@ struct PtrMap {
 ////////////////////////////////////////////////////////////////////////////////
 // Recording page allocator
 struct RecPages : public ::babylon::PageAllocator {
+  static constexpr size_t kGuard = 64;
   size_t ps = 4096;
   const char* name = "?";
   PtrMap map;
@@ -135,8 +136,12 @@ struct RecPages : public ::babylon::PageAllocator {
   using PageAllocator::deallocate;
   void allocate(void** pages, size_t num) noexcept override {
     for (size_t i = 0; i < num; ++i) {
-      void* p = ::aligned_alloc(ps, ps);
+      // kGuard canary bytes behind every page: glibc's usable slack (and babylon's own ASan
+      // unpoisoning of a mis-placed PageArray) would otherwise hide a small overrun
+      void* p = nullptr;
+      if (::posix_memalign(&p, ps, ps + kGuard) != 0) { vf::inconclusive("harness: out of memory"); ::abort(); }
       memset(p, 0xCD, ps);
+      memset(static_cast<char*>(p) + ps, 0xA7, kGuard);
       if (!map.insert(uintptr_t(p))) vf::inconclusive("harness: malloc returned a live page twice");
       n_alloc.fetch_add(1, std::memory_order_relaxed);
       pages[i] = p;
@@ -155,6 +160,13 @@ struct RecPages : public ::babylon::PageAllocator {
         continue;  // never free memory we do not own
       }
       n_free.fetch_add(1, std::memory_order_relaxed);
+      for (size_t g = 0; g < kGuard; ++g) {
+        if (static_cast<unsigned char*>(p)[ps + g] != 0xA7) {
+          fail("page-overrun", vf::fmt("the %zu bytes behind page %p (page size %zu) were written (first at offset +%zu): the "
+                                       "resource wrote beyond the end of a page", kGuard, p, ps, g));
+          break;
+        }
+      }
       memset(p, 0xDD, ps);
       asm volatile("" : : "r"(p) : "memory");  // keep the poison store (dead-store elimination before free)
       ::free(p);
@@ -173,6 +185,7 @@ thread_local int g_owner = 0;  // which logical content is allocating (exclusive
 
 // Recording upstream resource. Rare operations: a mutex-protected ordered map is fine.
 struct RecUpstream : public ::std::pmr::memory_resource {
+  size_t kGuard = 32;  // canary bytes behind every block (0 in probe P1, where the library frees our blocks itself)
   struct Ent { size_t bytes, align; int owner; };
   std::mutex mu;
   std::map<uintptr_t, Ent> live;
@@ -183,8 +196,9 @@ struct RecUpstream : public ::std::pmr::memory_resource {
 
   void* do_allocate(size_t bytes, size_t alignment) override {
     size_t a = alignment ? alignment : 1;
-    void* p = ::operator new(bytes ? bytes : 1, ::std::align_val_t(a));
+    void* p = ::operator new(bytes + kGuard, ::std::align_val_t(a));
     memset(p, 0xCE, bytes);
+    memset(static_cast<char*>(p) + bytes, 0xA9, kGuard);
     std::lock_guard<std::mutex> g(mu);
     live[uintptr_t(p)] = Ent {bytes, alignment, g_owner};
     ++n_alloc;
@@ -219,6 +233,12 @@ struct RecUpstream : public ::std::pmr::memory_resource {
       fail("upstream-dealloc-wrong-size-or-alignment",
            vf::fmt("upstream %s: block %p obtained with (bytes=%zu, align=%zu) returned with (bytes=%zu, align=%zu)",
                    name, p, e.bytes, e.align, bytes, alignment));
+    }
+    for (size_t g = 0; g < kGuard; ++g) {
+      if (static_cast<unsigned char*>(p)[e.bytes + g] != 0xA9) {
+        fail("oversize-block-overrun", vf::fmt("the bytes behind upstream block %p (+%zu) were written (first at offset +%zu)", p, e.bytes, g));
+        break;
+      }
     }
     memset(p, 0xDE, e.bytes);
     asm volatile("" : : "r"(p) : "memory");
@@ -1106,6 +1126,7 @@ void run_moves(uint64_t seed, uint64_t e) {
     // P1: move-construct an exclusive resource that owns oversize blocks obtained from U1
     RecUpstream U1;
     U1.name = "U1";
+    U1.kGuard = 0;  // the blocks end up in ::operator delete(ptr, bytes, align) of new_delete_resource: sizes must match
     {
       Excl X;
       X.set_page_allocator(*R1);
